@@ -130,6 +130,19 @@ def run_pair(ctx, case, c):
             return
     if J[0][0] != A[0][0] or J[0][-1] != B[0][-1]:
         rec.violation("joined curve has the wrong interval", case)
+    # only the junction knot may lose multiplicity: every other interior knot of A and B stays, raised by the degree gap
+    pa_, pb_ = kv_info(list(A[0]))[0], kv_info(list(B[0]))[0]
+    r_ = max(pa_, pb_)
+    l3(rec, "join-keeps-other-knots")
+    for (Uo, po) in ((A[0], pa_), (B[0], pb_)):
+        for x in sorted(set(Uo)):
+            if x in (Uo[0], Uo[-1]):
+                continue
+            want = list(Uo).count(x) + (r_ - po)
+            if list(J[0]).count(x) != want:
+                rec.violation("join changed the multiplicity of a knot that is not the junction", case, knot=str(x),
+                              observed=list(J[0]).count(x), expected=want, joined=ser(J[0]))
+                return
 
 
 def run(ctx):
@@ -157,10 +170,28 @@ def run(ctx):
         mid = F(rng.randint(-2, 2))
         UA = rand_kv(rng, p=pa, nintmax=2, interval=(mid - rng.randint(1, 2), mid))
         UB = rand_kv(rng, p=pb, nintmax=2, interval=(mid, mid + rng.randint(1, 3)))
-        label = rng.choice(["continuous", "continuous", "jump", "rational", "mismatch"])
+        label = rng.choice(["continuous", "continuous", "jump", "rational", "mismatch", "refined", "refined"])
         na, nb = kv_info(UA)[1], kv_info(UB)[1]
         PA, PB = rand_points(rng, na, dim), rand_points(rng, nb, dim)
         WA = WB = None
+        if label == "refined":
+            # an operand that carries removable interior knots (it was refined by knot insertion): only the junction knot may lose
+            # multiplicity in a join, every other knot of A and B stays
+            if rng.random() < 0.5:
+                PB[0] = PA[-1]
+            which = rng.choice(["A", "B", "AB"])
+            if "A" in which and pa >= 1:
+                x = UA[0] + (UA[-1] - UA[0]) * rng.choice(GRID)
+                m = ctx["drv"].call("curve.insert", *curve_args(UA, PA, None), [x] * rng.randint(1, max(1, pa - UA.count(x))))
+                if m[0] == "ok":
+                    UA, PA, _ = model_curve_state(m[1])
+                    UA, PA = list(UA), [tuple(q) for q in PA]
+            if "B" in which and pb >= 1:
+                x = UB[0] + (UB[-1] - UB[0]) * rng.choice(GRID)
+                m = ctx["drv"].call("curve.insert", *curve_args(UB, PB, None), [x] * rng.randint(1, max(1, pb - UB.count(x))))
+                if m[0] == "ok":
+                    UB, PB, _ = model_curve_state(m[1])
+                    UB, PB = list(UB), [tuple(q) for q in PB]
         if label in ("continuous", "rational"):
             PB[0] = PA[-1]
         if label == "rational":
